@@ -21,6 +21,7 @@ CONSTANTS
   Bases = {%s}
   CellSets <- CellsQuick
   Actions <- ActionsShift
+  MaxDepth = 1
   EmitJson = TRUE
 INVARIANT MapsConsistent
 INVARIANT GeometryFollows
